@@ -147,13 +147,11 @@ def metaPairs : Nat → List (String × String) → AM (List (String × String))
       | some t => fail .unexpected t.loc
     | some t => fail .unexpected t.loc
 
-/-- i32 remainder / subtraction of the struct `@align` (`alignment - (size % alignment)`), with
-the overflow the unchecked `-` has when overflow checks are on. -/
-def structPadding (size al : I32) (loc : Loc) : AM I32 := do
-  let r := size.srem al
-  let d := al.toInt - r.toInt
-  if d > 2147483647 ∨ d < -2147483648 then fail (.crash "struct @align: attempt to subtract with overflow") loc
-  pure ((BitVec.ofInt 32 d).srem al)
+/-- Padding of the struct `@align`: `(alignment - size.rem_euclid(alignment)) % alignment`
+(alignment ≥ 2, so everything stays inside `i32`). -/
+def structPadding (size al : I32) (_loc : Loc) : AM I32 := do
+  let r := size.toInt % al.toInt
+  pure (BitVec.ofInt 32 ((al.toInt - r) % al.toInt))
 
 def structLoop : Nat → String → Loc → I32 → AM I32
   | 0, _, _, _ => do fail .fuel ((← get).loc.getD {})
